@@ -191,3 +191,9 @@ impl CrcCalculator for RecCrc {
         self.ret
     }
 }
+
+impl<'a> CrcCalculator for &'a RecCrc {
+    fn calculate_crc32(&self, pdu: &[u8], pt: u16, tl: u16, label: &[u8]) -> u32 {
+        (**self).calculate_crc32(pdu, pt, tl, label)
+    }
+}
